@@ -65,6 +65,9 @@ class Target:
     trusted = ()             # human-readable assumed contracts (externs) -> evidence.trusted_base
     assumptions = ()         # preconditions that narrow the property's quantifier
     carve_outs = {}          # name -> fn(c, st) formula, used only for open known findings
+    alternatives = {}        # clause label -> group name: the PROPERTY needs this clause from at least one of the targets
+                             # of the group (per case, see alt_case); a refutation in one mechanism alone is reported as
+                             # a note, a case refuted in every mechanism of the group is the violation
     native_replay = True     # False: environment cannot be built natively
 
     def oid(self, kind, label):
@@ -96,6 +99,10 @@ class Target:
         return False
 
     float_sensitive = False
+    def alt_case(self, c, st):
+        """the case (e.g. graph shape) an alternative clause is about; compared across the targets of a group"""
+        return None
+
     compare_return = True    # False: the return value legitimately depends on set iteration order etc.
     abstracted = False       # True: some externs are uninterpreted functions (counter-models may be spurious)
 
